@@ -19,6 +19,10 @@ def gen_case(g, prop):
         pats = [g.choice(T.PATTERNS) for _ in range(g.randint(0, 5))]
         if g.random() < 0.12:    # the input path itself is excluded: by directory-only pattern, bare name or absolute path
             pats.append(g.choice([dname + '/', dname, '{INP}', '{INP}/', '**/' + dname + '/']))
+        if g.random() < 0.25:   # a pattern given twice with a negation in between: the later duplicate excludes again (last match wins)
+            pats += g.choice([['*.cmake', '!a.cmake', '*.cmake'], ['a*', '!aa.cmake', '!ab/', 'a*'], ['sub/', '!sub/', 'sub/'],
+                              ['*.cmake', '!root.cmake', '!b.cmake', '*.cmake'], ['mod.*', '!mod.cmake', 'mod.*', '!mod.cmake'],
+                              ['**/deep/*.cmake', '!**/deep/a.cmake', '**/deep/*.cmake']])
         if g.random() < 0.3:   # several patterns hitting adjacent siblings / every cmake file of a directory
             pats += g.choice([['aa/', 'ab/', 'ac/'], ['e1.cmake', 'e2.cmake', 'e3.cmake'], ['*.cmake'], ['a.cmake', 'b.cmake', 'c.cmake']])
     if prop == 'C12':
@@ -55,7 +59,8 @@ def gen_case(g, prop):
                 f = g.choice(files); pats.append(g.choice([f[-1], '**/' + f[-1], '{INP}/' + '/'.join(f), '*' + f[-1][-6:], f[-1].upper() if g.random() < 0.2 else f[-1]]))
     inp = dict(kind='dir', name=dname, children=children, spelled=g.choice(['abs', 'rel', 'dot']) if prop in ('C12', 'C17') else 'abs')
     if prop in ('C12', 'C18', 'C17') and g.random() < 0.2:
-        f = g.choice(T.NAMES) + g.choice(['.cmake', '.CMake', '.cmake', '.txt'])
+        f = g.choice(T.NAMES + (['', ''] if prop in ('C17', 'C12') else [])) + g.choice(['.cmake', '.CMake', '.cmake', '.txt'])     # '' : a file named just `.cmake`
+        if prop == 'C17' and g.random() < 0.35: f = g.choice(['.cmake', '.CMake'])      # empty title and module name: nothing may stand in for them
         inp = dict(kind='file', name=f, content=T.file_content(g, f), spelled=g.choice(['abs', 'rel']))
         if output == 'nested': output = 'abs'
     if inp.get('spelled') == 'dot' and output == 'rel': output = 'abs'   # a relative output would resolve against the input directory
